@@ -201,6 +201,14 @@ func genLoopSpec(r *Rng, idx int) loopSpec {
 				l.Step = -1
 			}
 		}
+		if r.Chance(25) {
+			// a COMPUTED bound: the addition / subtraction wraps around in the program
+			if r.Bool() {
+				l.Start = "a + " + pick(r, map[string][]string{"uint8": {"100", "56"}, "int8": {"100", "28"}, "uint16": {"36", "65000"}, "int32": {"48", "2147483000"}}[l.Ty])
+			} else {
+				l.Limit = "b - " + pick(r, []string{"1", "3", "7"})
+			}
+		}
 	}
 	if l.Ty == "" && r.Chance(12) {
 		// 64-bit unsigned counters running above MaxInt64, also through a defined type and an alias
@@ -306,7 +314,7 @@ func evalSCEV(s loop.SCEV, env map[ssa.Value]*big.Int) (*big.Int, bool) {
 }
 
 func suiteLoops(c *Ctx) error {
-	c.Res.Rule = "generated counted loops (up/down; tests < <= > >= !=; steps 1,2,3,5 and negative; constant and parameter bounds; counters of type int and, in 30% of the loops, uint8 / int8 / uint16 / int32 with bounds next to the end of the range so that the counter can wrap around, and in 6% uint64 / a defined type over uint64 / an alias of it with bounds above MaxInt64; forms: top-tested, a single exit test that is skipped on odd iterations (continue before the test), break-tested `for { if !(test) { break }; …}`, bottom-tested, with an extra break, with continue, with a conditionally doubled update, with a multiplicative update; optionally nested in an outer loop, optionally after a sibling loop with the same start and step) x 12 argument vectors; the real loop analysis of the plain function vs a natively executed instrumented twin recording the header values and body count; checked only where the analysis makes a claim (basic induction variable / evaluable trip count); non-trivial = the analysis made at least one claim and the loop ran at least once; distinct by (loop, arguments)"
+	c.Res.Rule = "generated counted loops (up/down; tests < <= > >= !=; steps 1,2,3,5 and negative; constant and parameter bounds; counters of type int and, in 30% of the loops, uint8 / int8 / uint16 / int32 with bounds next to the end of the range so that the counter can wrap around (a quarter of these with a computed bound such as `a + 100` or `b - 1`), and in 6% uint64 / a defined type over uint64 / an alias of it with bounds above MaxInt64; forms: top-tested, a single exit test that is skipped on odd iterations (continue before the test), break-tested `for { if !(test) { break }; …}`, bottom-tested, with an extra break, with continue, with a conditionally doubled update, with a multiplicative update; optionally nested in an outer loop, optionally after a sibling loop with the same start and step) x 12 argument vectors; the real loop analysis of the plain function vs a natively executed instrumented twin recording the header values and body count; checked only where the analysis makes a claim (basic induction variable / evaluable trip count); non-trivial = the analysis made at least one claim and the loop ran at least once; distinct by (loop, arguments)"
 	n := c.N
 	if n == 0 {
 		n = 120
